@@ -21,7 +21,7 @@ import (
 )
 
 type Script struct {
-	defTerm map[string]string // defined name -> its term
+	defTerm  map[string]string // defined name -> its term
 	decls    []string
 	declSet  map[string]bool
 	body     []string
@@ -268,24 +268,24 @@ func IntLit(v int64) string {
 // ---- obligations and solving ----
 
 type Obligation struct {
-	Name     string // stable name: <pkg>.<Func>#<kind>.<clause>
-	Func     string
-	Props    []string
-	Kind     string // post, pre, inv, safe, lemma, vacuity ...
-	Prefix   int    // body prefix length
-	Goal     string // must be valid under the prefix
-	Expect   string // "unsat" (normal) or "sat" (vacuity probes)
-	Pos      string // source position (informational only)
-	Bounded  string // non-empty for bounded stand-ins
-	GetVals  []string // terms to evaluate in a counter-model
-	Replay   *ReplaySpec
-	script   *Script
-	extra    []string // extra assertions local to this obligation
-	Desc     string
-	NoRetry    bool     // a recorded known finding: no extended-budget retry
+	Name       string // stable name: <pkg>.<Func>#<kind>.<clause>
+	Func       string
+	Props      []string
+	Kind       string   // post, pre, inv, safe, lemma, vacuity ...
+	Prefix     int      // body prefix length
+	Goal       string   // must be valid under the prefix
+	Expect     string   // "unsat" (normal) or "sat" (vacuity probes)
+	Pos        string   // source position (informational only)
+	Bounded    string   // non-empty for bounded stand-ins
+	GetVals    []string // terms to evaluate in a counter-model
+	Replay     *ReplaySpec
+	script     *Script
+	extra      []string // extra assertions local to this obligation
+	Desc       string
+	NoRetry    bool        // a recorded known finding: no extended-budget retry
 	Optional   bool        // a satisfiability probe whose refutation is not an alarm by itself (dead path)
 	PairPre    *Obligation // for an after-call probe: the probe taken just before the callee's postconditions were assumed
-	OwnerProps []string // for call-site preconditions: the properties the callee's contract serves
+	OwnerProps []string    // for call-site preconditions: the properties the callee's contract serves
 }
 
 type Result struct {
@@ -441,8 +441,8 @@ func Solve(o *Obligation, timeoutS int, confirm bool) *Result {
 		want = "unsat"
 	}
 	query := o.Query(true)
-	if want == "sat" && timeoutS > 3 {
-		timeoutS = 3 // satisfiability probes: cheap attempt only, "undecided" is not an alarm
+	if want == "sat" && timeoutS > 2 {
+		timeoutS = 2 // satisfiability probes: cheap attempt only (answers come in well under a second or not at all); "undecided" is not an alarm
 	}
 	record := func(name, st, out string, secs float64) bool {
 		// returns true when the answer is decisive
@@ -478,6 +478,9 @@ func Solve(o *Obligation, timeoutS int, confirm bool) *Result {
 	if sequential {
 		// satisfiability probes, known findings and quick mutant hunts: the plain portfolio, one solver after the other
 		for i, sp := range solvers {
+			if want == "sat" && sp.name == "cvc5" {
+				continue // probes: cvc5 has never decided one (measured over all checks); z3-new or z3 4.8 answer within a second or not at all
+			}
 			t := timeoutS
 			if i > 0 {
 				t = timeoutS / 2
